@@ -87,6 +87,32 @@ def addr_ordered(tstr):
     return None
 
 
+READ_ONLY_ALGOS = ('std::find', 'std::find_if', 'std::find_if_not', 'std::any_of', 'std::all_of', 'std::none_of', 'std::count', 'std::count_if', 'std::for_each',
+                   'std::distance', 'std::accumulate', 'std::equal', 'std::min_element', 'std::max_element', 'std::is_sorted', 'std::binary_search', 'std::lower_bound')
+
+
+def refine_iterator_use(u, c):
+    """a queue handed to begin()/end() (free or member) is classified by the algorithm that consumes the iterator: read-only scans keep the class,
+    anything else (sort, reverse, rotate, remove, unique, shuffle...) can reorder the queue"""
+    callee = getattr(u, 'callee', None) or ''
+    m = callee.split('<')[0].rsplit('::', 1)[-1]
+    if not ((u.kind == 'arg' and m in ('begin', 'end', 'rbegin', 'rend')) or (u.kind == 'call' and u.method in ('begin', 'end', 'rbegin', 'rend'))):
+        return c
+    fn = u.fn
+    target = u.parent
+    consumers = []
+    for eid2, el in enumerate(fn['elems']):
+        for n in ex.walk(el['x']):
+            if n.get('k') in ('Call', 'New0') and n is not target:
+                for a in n.get('a') or ():
+                    if a is target or (isinstance(a, dict) and a.get('k') == 'R' and a.get('r') == u.eid and fn['elems'][u.eid]['x'] is target):
+                        consumers.append((n.get('c') or {}).get('q', '?'))
+    if not consumers:
+        return c
+    bad = [q for q in consumers if q.split('<')[0] not in READ_ONLY_ALGOS and not q.split('<')[0].endswith(('operator==', 'operator!=', 'operator-'))]
+    return ('reordered by ' + bad[0].split('<')[0]) if bad else c
+
+
 def in_scope(fn, scope):
     f = fn['file']
     if f.startswith(REPO + '/'):
@@ -361,6 +387,7 @@ def run(ctx):
         c = u.kind if u.kind != 'call' else lib.CONTAINER_OPS.get(u.method, 'other:' + str(u.method))
         if c == 'query' or (u.kind == 'write' and u.op == 'init'):
             continue
+        c = refine_iterator_use(u, c)
         ok = c in allowed.get(u.fn['q'], {'<none>'})
         ctx.check(ok, 'R3', 'actors_to_run_: %s in %s' % (u.method or u.kind, u.fn['q'].replace(K, '')), where(u.fn, u.line), 'operation class %s' % c,
                   key='R3|%s|actors_to_run_ %s' % (u.fn['q'].rsplit('::', 1)[-1], c))
@@ -369,6 +396,7 @@ def run(ctx):
         c = u.kind if u.kind != 'call' else lib.CONTAINER_OPS.get(u.method, 'other:' + str(u.method))
         if c == 'query' or (u.kind == 'write' and u.op == 'init'):
             continue
+        c = refine_iterator_use(u, c)
         ok = c in allowed2.get(u.fn['q'], {'<none>'})
         ctx.check(ok, 'R3', 'actors_that_ran_: %s in %s' % (u.method or u.kind, u.fn['q'].replace(K, '')), where(u.fn, u.line), 'operation class %s' % c,
                   key='R3|%s|actors_that_ran_ %s' % (u.fn['q'].rsplit('::', 1)[-1], c))
